@@ -247,6 +247,8 @@ template <class G> struct Monitor {
         R.count("histories_abandoned_call_not_rejected", abandonedNotRejected);
         rejectedCalls = rejectedThenGrown = abandonedNotRejected = 0;
         R.count("setEdgeWeight_with_ulp_neighbour_tiny_or_negative_zero", specialWeights);
+        R.count("exact_histories_scaled_by_a_power_of_two", scaledExactHistories);
+        scaledExactHistories = 0;
         specialWeights = 0;
         R.count("long_histories_2000_to_4500_calls", longHistories);
         longHistories = 0;
@@ -375,6 +377,10 @@ template <class G> struct Monitor {
     // some rounding-mode histories carry weights near the top of the double range: two of them do not add up in a double, so
     // an accumulator narrower than the one the total is kept in shows as inf / nan instead of a rounding error
     bool hugeWeights = false;
+    // exact histories are scaled by a power of two (every weight and partial sum stays exactly representable): a total that is
+    // kept right only for differences above some absolute threshold, or in a narrower type, shows there and nowhere else
+    int exactScale = 0;
+    uint64_t scaledExactHistories = 0;
     double genWeight(Rng &r, bool exact) {
         if (hugeWeights && !exact && r.chance(1, 3)) {
             ++hugeWeightCalls;
@@ -385,7 +391,7 @@ template <class G> struct Monitor {
             if (c == 0) return 0.0;
             long k = (long)r.below(2097153) - 1048576; // |k| <= 2^20
             if (c < 4) k = (long)r.below(65) - 32;
-            return (double)k / 8.0;
+            return std::ldexp((double)k / 8.0, exactScale);
         }
         unsigned c = r.u(12);
         if (c == 0) return 0.0;
@@ -492,6 +498,12 @@ template <class G> struct Monitor {
         if (scale) exact = (sub / cfg.scaleEvery) % 2 == 0;
         else if (checkEvery == 16) exact = (sub / (cfg.scaleEvery * 4)) % 2 == 0;
         hugeWeights = !exact && checkEvery == 1 && sub % 7 == 3;
+        exactScale = 0;
+        if (exact) {
+            static const int sc[] = {0, 0, -67, 0, -1000, 0, 900, -300};
+            exactScale = sc[(sub / 2) % 8];
+            if (exactScale) ++scaledExactHistories;
+        }
         Subject<G> s(n0);
         Op prevOp;
         bool havePrev = false;
